@@ -87,7 +87,7 @@ fix_error:
 func fix_error(json string, pos int, err error) error {
 	if e, ok := err.(SyntaxError); ok {
 		return SyntaxError{
-			Pos: int(e.Pos) + pos,
+			Pos: errors.ClampPos(int(e.Pos)+pos, len(json)),
 			Src: json,
 			Msg: e.Msg,
 		}
